@@ -184,6 +184,12 @@ func c18Fold(M int, focused bool) {
 	}
 	err1 := two.m.Replay(bg, bus, eventbus.OffsetOldest)
 	vAssert((err1 != nil) == (stop < split), "strict-error-iff-unregistered")
+	// the state is looked at between the sessions as well
+	upto1 := split
+	if stop < upto1 {
+		upto1 = stop
+	}
+	vAssert(len(two.a.All()) == c18Live(ops, upto1, 0) && len(two.b.All()) == c18Live(ops, upto1, 1), "first-session-size")
 	for i := split; i < M; i++ {
 		c18Publish(bus, ops[i])
 	}
